@@ -148,6 +148,9 @@ def run(tier, seed):
         for _ in range(reps):
             delta = float(10 ** rng.uniform(-3, -0.02))
             one(ctx, FP, d, delta)
+        if d in (1, 2, 5, 13):
+            for delta in (0.999, 1e-6, 0.5):       # ends of (0,1) and the library's documented example value
+                one(ctx, FP, d, delta)
     for d, g in ([(3, 0.5), (12, 0.1), (40, 0.3), (110, 0.05)] if tier == "quick" else
                  [(1, 0.9), (3, 0.5), (12, 0.1), (40, 0.3), (64, 0.02), (110, 0.05), (150, 0.15), (200, 0.3)]):
         one_gamma(ctx, FP, d, g)
